@@ -496,7 +496,7 @@ func mustJSON(v any) json.RawMessage {
 func TestC17_api_Race(t *testing.T) {
 	kit.RequireMode(t, "race")
 	kit.Check(t, kit.Prop[c17Case]{
-		ID: "C17", Quick: 250, Thor: 20_000,
+		ID: "C17", Quick: 250, Thor: 4_000,
 		Rule: "subject (every limit, wrapper, strategy incl. partition objects, limiter stack, measurement, both registries) x 2-8 goroutines x 10-120 generated calls from the subject's table of exported methods (mutators, accessors, String, dynamic partitions, NotifyOnChange, Register*, Start/Stop), run under the Go race detector; non-trivial = >=2 goroutines sharing the object with >=1 mutator call",
 		Gen:  genC17, Run: runC17, NoShrink: true,
 	})
